@@ -4,6 +4,7 @@ import (
 	"fmt"
 	"math"
 	"strings"
+	"unicode/utf8"
 
 	"github.com/ChrisTrenkamp/xsel/node"
 	"github.com/ChrisTrenkamp/xsel/store"
@@ -266,53 +267,69 @@ func substring(context Context, args ...Result) (Result, error) {
 		return nil, errBadArgs
 	}
 
-	str := args[0].String()
-	begin := getRound(args[1].Number())
+	// The characters at the positions q with
+	// round(p) <= q < round(p) + round(l), compared as IEEE 754 doubles, so
+	// NaN selects nothing and infinities behave as limits.  Positions count
+	// characters, not bytes.
+	first := getRound(args[1].Number())
+	last := math.Inf(1)
 
-	if float64(begin-1) >= float64(len(str)) || math.IsNaN(float64(begin)) {
-		return String(""), nil
+	if len(args) == 3 {
+		last = first + getRound(args[2].Number())
 	}
 
-	if len(args) == 2 {
-		if begin <= 1 {
-			begin = 1
+	ret := strings.Builder{}
+	position := 0
+
+	for _, r := range args[0].String() {
+		position++
+		q := float64(position)
+
+		if first <= q && q < last {
+			ret.WriteRune(r)
 		}
-
-		return String(str[int(begin)-1:]), nil
 	}
 
-	end := getRound(args[2].Number())
-
-	if end <= 0 || math.IsNaN(float64(end)) || (math.IsInf(float64(begin), 0) && math.IsInf(float64(end), 0)) {
-		return String(""), nil
-	}
-
-	if begin <= 1 {
-		end = begin + end - 1
-		begin = 1
-	}
-
-	if float64(begin+end-1) >= float64(len(str)) {
-		end = float64(len(str)) - begin + 1
-	}
-
-	return String(str[int(begin)-1 : int(begin+end)-1]), nil
+	return String(ret.String()), nil
 }
 
 func stringLength0(context Context, args ...Result) (Result, error) {
-	return Number(len(context.Result().String())), nil
+	return Number(utf8.RuneCountInString(context.Result().String())), nil
 }
 
 func stringLength1(context Context, args ...Result) (Result, error) {
-	return Number(len(args[0].String())), nil
+	return Number(utf8.RuneCountInString(args[0].String())), nil
 }
 
 func normalizeSpace0(context Context, args ...Result) (Result, error) {
-	return String(strings.TrimSpace(context.Result().String())), nil
+	return String(normalizeXmlSpace(context.Result().String())), nil
 }
 
 func normalizeSpace1(context Context, args ...Result) (Result, error) {
-	return String(strings.TrimSpace(args[0].String())), nil
+	return String(normalizeXmlSpace(args[0].String())), nil
+}
+
+// normalizeXmlSpace strips leading and trailing XML whitespace (#x20, #x9,
+// #xD, #xA) and replaces every internal run of it by one space.
+func normalizeXmlSpace(s string) string {
+	ret := strings.Builder{}
+	pending := false
+
+	for i := 0; i < len(s); i++ {
+		if isXmlSpace(s[i]) {
+			pending = ret.Len() > 0
+			continue
+		}
+
+		if pending {
+			ret.WriteByte(' ')
+			pending = false
+		}
+
+		ret.WriteByte(s[i])
+	}
+
+	return ret.String()
 }
 
 func translate(context Context, args ...Result) (Result, error) {
@@ -320,21 +337,30 @@ func translate(context Context, args ...Result) (Result, error) {
 		return nil, errBadArgs
 	}
 
-	src := args[0].String()
-	old := args[1].String()
-	new := args[2].String()
+	// Every character is mapped on its own, by its first occurrence in the
+	// second argument; it is removed when the third argument is shorter.
+	from := []rune(args[1].String())
+	to := []rune(args[2].String())
+	ret := strings.Builder{}
 
-	for i := range old {
-		r := ""
+	for _, r := range args[0].String() {
+		index := -1
 
-		if i < len(new) {
-			r = string(new[i])
+		for i := range from {
+			if from[i] == r {
+				index = i
+				break
+			}
 		}
 
-		src = strings.Replace(src, string(old[i]), r, -1)
+		if index < 0 {
+			ret.WriteRune(r)
+		} else if index < len(to) {
+			ret.WriteRune(to[index])
+		}
 	}
 
-	return String(src), nil
+	return String(ret.String()), nil
 }
 
 func not(context Context, args ...Result) (Result, error) {
